@@ -15,7 +15,11 @@ func genPC(rt *rapid.T, thorough bool) *PCProgram {
 	payload := ps - 28
 	p.Cfg.WriteBuffer = rapid.SampledFrom([]uint{0, uint(ps), uint(4 * ps)}).Draw(rt, "wbuf")
 	if rapid.IntRange(0, 2).Draw(rt, "bounded") == 0 {
-		p.Cfg.MaxPages = uint(rapid.IntRange(65536/ps+8, 65536/ps+64).Draw(rt, "max"))
+		// big enough that the buffered data always fits once everything consumed is ACKed:
+		// the meta area can grow to 16-32 pages and never shrinks, events span up to 4 pages,
+		// the write buffer up to 4 pages (a 24 page file with a 16 page meta area can not hold a
+		// 3 page event at all: seen as a false "no progress" alarm)
+		p.Cfg.MaxPages = uint(rapid.IntRange(96, 160).Draw(rt, "max"))
 	}
 	p.Cfg.InitMeta = rapid.SampledFrom([]uint32{0, 4}).Draw(rt, "meta")
 	maxN := 40
